@@ -514,7 +514,18 @@ func (c11) Check(c *core.Case, env *core.Env, res zzsim.Result, v *core.Verdict)
 		// "a reply that arrives before the send operation has even returned
 		// is still delivered to its caller" - whatever happens to the
 		// connection afterwards
+		// (not when the application itself closes the endpoint: its Close runs
+		// in another goroutine than the one that has just read the reply and
+		// may sweep the handlers before that one hands the reply over; the
+		// call is then in flight at a close, and fails as the first clause
+		// says. A failure of the connection, on the other hand, is noticed by
+		// the reading goroutine itself, after it has handed over what it read.)
+		localClose := strings.HasPrefix(firedKind, "app-close")
 		for key := range EarlyReplyKeys(conns[0]) {
+			if localClose {
+				env.Probe("early-reply-then-local-close")
+				break
+			}
 			for _, h := range hs {
 				if h.Arg == key && (h.Kind == "echo" || h.Kind == "slow" || h.Kind == "late-echo") && h.Ret != 0 && !h.OK {
 					bad("early-reply-lost", "%s: the reply of %s had been read by the client's endpoint before its Send returned, yet the call failed", where, h)
